@@ -1,5 +1,33 @@
-(* C19 - statements only. (grows) *)
-From Sbdf Require Import Base BaseFacts.
-Theorem C19_cmp_zero_iff_equal : forall a b, lex_cmp a b = 0 <-> a = b.
-Proof. exact lex_cmp_eq. Qed.
-Print Assumptions C19_cmp_zero_iff_equal.
+(* C19 — charset helpers are exact, size-consistent and stay inside the input.
+   The model (Charset.v) works on the bytes before the terminator and returns the bytes written
+   before the terminator; the C functions return that length plus one in both the size-only and the
+   converting call.  "Reads nothing past the terminator" is structural in the model (there is
+   nothing after the list) and is tied to the code by the ASan run on exactly-sized buffers.
+   Statements only; proofs in CharsetFacts.v. *)
+From Sbdf Require Import Charset CharsetFacts.
+
+Theorem C19_roundtrip : forall s, Forall latin1 s -> utf8_to_iso (iso_to_utf8 s) = s.
+Proof. exact iso_utf8_iso_roundtrip. Qed.
+Print Assumptions C19_roundtrip.
+
+Theorem C19_intermediate_wellformed : forall s, Forall latin1 s -> wf_utf8 (iso_to_utf8 s) /\ Forall (fun b => b <> 0) (iso_to_utf8 s).
+Proof. intros s H. split; [now apply iso_to_utf8_wellformed|now apply iso_to_utf8_nul_free]. Qed.
+Print Assumptions C19_intermediate_wellformed.
+
+(* malformed or truncated UTF-8 included: every output byte is a copied ASCII byte, a decoded
+   Latin-1 code point >= 0x80, or the substitute character — never a NUL, never out of range *)
+Theorem C19_utf8_to_iso_output : forall s, Forall (fun b => 1 <= b <= 255) s -> Forall out_ok (utf8_to_iso s).
+Proof. exact utf8_to_iso_output. Qed.
+Print Assumptions C19_utf8_to_iso_output.
+
+(* the conversion consumes its whole input with the fuel it is given: more fuel changes nothing *)
+Theorem C19_total : forall s f1 f2, (length s <= f1)%nat -> (length s <= f2)%nat -> u2i_loop f1 s = u2i_loop f2 s.
+Proof. exact u2i_loop_fuel_enough. Qed.
+Print Assumptions C19_total.
+
+(* undecodable and out-of-range sequences become the substitute character *)
+Example C19_substitutes :
+  utf8_to_iso [195] = [26] /\ utf8_to_iso [195; 65] = [26; 65] /\ utf8_to_iso [192; 128] = [26] /\
+  utf8_to_iso [196; 128] = [26] /\ utf8_to_iso [226; 130; 172] = [26] /\ utf8_to_iso [128; 128; 65] = [26; 65] /\
+  utf8_to_iso [65; 195; 169; 66] = [65; 233; 66].
+Proof. repeat split; reflexivity. Qed.
